@@ -133,6 +133,19 @@ CHECKS = {
         design_ref="DESIGN.md 5 C29",
         note=NOTE_COMMON + " Operations that NumPy/dask refuse on the bare array are not compared; an empty linear axis has no coordinates to compare.",
     ),
+    "C15": dict(
+        text=("TLC enumerates FourierImpl (the 1-D interpolation masks and fft_crop's k-th-to-k-th copy transcribed, python slice "
+              "semantics of a[:k]/a[-k:] incl. k = 0) for every (n1, n2) <= 8 (thorough 12) and checks that the crop is the "
+              "frequency-preserving map on the common band, keeps DC, Down(Up(x)) = x, and that rolls compose additively and "
+              "periodically; the shape pairs are combined into 2-D cases (with batch dimensions) on the real fft_crop, whose "
+              "index-identity input decodes the exact copy map; up/down round trips (complex, batched, real with and without "
+              "Nyquist content; float32 and float64), mean and reciprocal-space intensity, whole-pixel shift vs roll, "
+              "composition of fractional shifts and Waves.downsample of band-limited waves (eager/lazy, against an independent "
+              "direct Fourier-series evaluation) are logged as deviations and bounded by FourierTrace.tla."),
+        technique="TLA+ index-algebra model (TLC) + TLC-enumerated shapes on the real FFT helpers with exact index decoding + TLC trace validation",
+        design_ref="DESIGN.md 5 C15",
+        note=NOTE_COMMON + " Numeric closeness is computed by numpy in the harness (tolerance 2e-5 single / 1e-9 double).",
+    ),
 }
 
 NOT_APPLICABLE = {
